@@ -273,6 +273,9 @@ psParseUnknownPubKeyMem(psPool_t *pool,
 # if defined USE_RSA || defined USE_ECC
     unsigned char hashBuf[SHA1_HASH_SIZE];
 # endif
+# ifdef USE_RSA
+    const unsigned char *rsap;
+# endif
 
     rc = psPemTryDecode(pool,
             keyBuf,
@@ -290,8 +293,11 @@ psParseUnknownPubKeyMem(psPool_t *pool,
     }
 
 # ifdef USE_RSA
+    /* The parser advances the pointer it is given: 'data' itself is still
+       needed for the ECC attempt and for psFree below */
+    rsap = data;
     rc = psRsaParseAsnPubKey(pool,
-                             (const unsigned char **)&data, data_len,
+                             &rsap, data_len,
                              &pubkey->key.rsa,
                              hashBuf);
     if (rc == PS_SUCCESS)
